@@ -195,7 +195,7 @@ func runC18(c *Ctx, variant int) {
 	if variant < 0 {
 		w.EnableFaults(sim.FSegment, sim.FDelay, sim.FShortRead)
 	}
-	nH := w.Range(1, 3)
+	nH := w.Range(1, c.Deep(3))
 	if variant >= 0 {
 		nH = 1 + variant%2
 	}
